@@ -13,7 +13,7 @@ claimed = {
                      "protocol requires, record equals the client's subscription after a non-rejected request. All inputs inside the bound are covered by the solver, not sampled.",
                 note="Outside: transport behaviour, the closed-loop exchange beyond one step (thorough tier), generator content.", ref="§4 C04"),
     "C07": dict(text="Hostname algebra (host.Name Matches/SubsetOf) decided against the wildcard-language semantics for every pair of names up to the length bound; "
-                     "visibility/import predicates of the sidecar scope (see evidence for the kernels run).",
+                     "visibility/import predicates of the sidecar scope and DestinationRule selection (exportTo semantics, lookup order) (see evidence for the kernels run).",
                 note="Outside: resources generated from the selected service sets.", ref="§4 C07"),
 }
 
